@@ -23,6 +23,8 @@ type DocSpec struct {
 	// LiteralStrings serialises the encrypted strings as literal strings with
 	// escapes "(...)" instead of hexadecimal strings "<...>" (optional).
 	LiteralStrings bool
+	// IndirectLength writes the content stream's /Length as a reference to an integer object (the last object).
+	IndirectLength bool
 }
 
 // Object numbers used by the builder.
@@ -191,6 +193,11 @@ func build(s DocSpec, encrypt bool) (pdf []byte, e Enc, fileKey []byte) {
 	if encrypt {
 		nObj = ObjEncrypt
 	}
+	lenObj := 0
+	if s.IndirectLength {
+		nObj++
+		lenObj = nObj
+	}
 	offsets := make([]int, nObj+1)
 	obj := func(nr int, body string) {
 		offsets[nr] = buf.Len()
@@ -208,7 +215,11 @@ func build(s DocSpec, encrypt bool) (pdf []byte, e Enc, fileKey []byte) {
 
 	data := crypt(ObjContents, ContentStream(s.Marker))
 	offsets[ObjContents] = buf.Len()
-	fmt.Fprintf(&buf, "%d 0 obj\n<< /Length %d >>\nstream\n", ObjContents, len(data))
+	if lenObj != 0 {
+		fmt.Fprintf(&buf, "%d 0 obj\n<< /Length %d 0 R >>\nstream\n", ObjContents, lenObj)
+	} else {
+		fmt.Fprintf(&buf, "%d 0 obj\n<< /Length %d >>\nstream\n", ObjContents, len(data))
+	}
 	buf.Write(data)
 	buf.WriteString("\nendstream\nendobj\n")
 
@@ -216,6 +227,9 @@ func build(s DocSpec, encrypt bool) (pdf []byte, e Enc, fileKey []byte) {
 	obj(ObjInfo, "<< /Title "+str(ObjInfo, s.Marker)+" /Producer "+str(ObjInfo, "isocrypt")+" >>")
 	if encrypt {
 		obj(ObjEncrypt, encDict)
+	}
+	if lenObj != 0 {
+		obj(lenObj, fmt.Sprint(len(data)))
 	}
 
 	xref := buf.Len()
